@@ -108,7 +108,7 @@ package log
 //@   requires logger != nil
 //@   requires 0 <= skip && skip <= 1000000
 //@   let on = enable(Logger.GetLevel(logger), level)
-//@   modifies appended[logger], lastLevel[logger], lastTag[logger], lastFields[logger], lastFile[logger], lastLine[logger], lastTime[logger], lastCtxString[logger], lastCtxFields[logger], all(Event), calls(TimeNow), calls(StringFromContext), calls(FieldsFromContext)
+//@   modifies appended[logger], lastLevel[logger], lastTag[logger], lastFields[logger], lastFile[logger], lastLine[logger], lastTime[logger], lastCtxString[logger], lastCtxFields[logger], all(Event), calls(TimeNow), calls(StringFromContext), calls(FieldsFromContext), lastNow
 //@   ensures[C01,C10:disabled] !on ==> appended[logger] == old(appended[logger]) && calls(TimeNow) == old(calls(TimeNow)) && calls(StringFromContext) == old(calls(StringFromContext)) && calls(FieldsFromContext) == old(calls(FieldsFromContext))
 //@   ensures[C01:once] on ==> appended[logger] == old(appended[logger]) + 1 && lastLevel[logger] == level && lastTag[logger] == tag && lastFields[logger] == fields
 //@   ensures[C10:time] on && TimeNow != nil ==> calls(TimeNow) == old(calls(TimeNow)) + 1 && arg0(TimeNow) == ctx && lastTime[logger] == ret(TimeNow, calls(TimeNow))
@@ -128,7 +128,7 @@ package log
 //@   requires 0 <= skip && skip <= 1000000
 //@   let on = enable(Logger.GetLevel(logger), level)
 //@   requires on
-//@   modifies appended[logger], lastLevel[logger], lastTag[logger], lastFields[logger], lastFile[logger], lastLine[logger], lastTime[logger], lastCtxString[logger], lastCtxFields[logger], all(Event), calls(TimeNow), calls(StringFromContext), calls(FieldsFromContext)
+//@   modifies appended[logger], lastLevel[logger], lastTag[logger], lastFields[logger], lastFile[logger], lastLine[logger], lastTime[logger], lastCtxString[logger], lastCtxFields[logger], all(Event), calls(TimeNow), calls(StringFromContext), calls(FieldsFromContext), lastNow
 //@   ensures[C01:once] on ==> appended[logger] == old(appended[logger]) + 1 && lastLevel[logger] == level && lastTag[logger] == tag && lastFields[logger] == fields
 //@   ensures[C10:time] on && TimeNow != nil ==> calls(TimeNow) == old(calls(TimeNow)) + 1 && arg0(TimeNow) == ctx && lastTime[logger] == ret(TimeNow, calls(TimeNow))
 //@   ensures[C10:time-default] on && TimeNow == nil ==> calls(TimeNow) == old(calls(TimeNow))
@@ -195,7 +195,7 @@ package log
 //@   requires tag != nil
 //@   let l = loggerOf(tag)
 //@   let on = enable(Logger.GetLevel(l), InfoLevel)
-//@   modifies appended[l], lastLevel[l], lastTag[l], lastFields[l], lastFile[l], lastLine[l], lastTime[l], lastCtxString[l], lastCtxFields[l], all(Event), calls(TimeNow), calls(StringFromContext), calls(FieldsFromContext)
+//@   modifies appended[l], lastLevel[l], lastTag[l], lastFields[l], lastFile[l], lastLine[l], lastTime[l], lastCtxString[l], lastCtxFields[l], all(Event), calls(TimeNow), calls(StringFromContext), calls(FieldsFromContext), lastNow
 //@   ensures[C01:own-level] on ==> appended[l] == old(appended[l]) + 1 && lastLevel[l] == InfoLevel && lastTag[l] == tag.tag && lastFields[l] == fields
 //@   ensures[C01,C10:disabled] !on ==> appended[l] == old(appended[l]) && calls(TimeNow) == old(calls(TimeNow)) && calls(StringFromContext) == old(calls(StringFromContext)) && calls(FieldsFromContext) == old(calls(FieldsFromContext))
 //@   ensures[C11:caller] on && enableCaller && deep(up($frame, 1)) ==> lastFile[l] == frame_file(up($frame, 1)) && lastLine[l] == frame_line(up($frame, 1))
@@ -213,7 +213,7 @@ package log
 //@   requires tag != nil
 //@   let l = loggerOf(tag)
 //@   let on = enable(Logger.GetLevel(l), WarnLevel)
-//@   modifies appended[l], lastLevel[l], lastTag[l], lastFields[l], lastFile[l], lastLine[l], lastTime[l], lastCtxString[l], lastCtxFields[l], all(Event), calls(TimeNow), calls(StringFromContext), calls(FieldsFromContext)
+//@   modifies appended[l], lastLevel[l], lastTag[l], lastFields[l], lastFile[l], lastLine[l], lastTime[l], lastCtxString[l], lastCtxFields[l], all(Event), calls(TimeNow), calls(StringFromContext), calls(FieldsFromContext), lastNow
 //@   ensures[C01:own-level] on ==> appended[l] == old(appended[l]) + 1 && lastLevel[l] == WarnLevel && lastTag[l] == tag.tag && lastFields[l] == fields
 //@   ensures[C01,C10:disabled] !on ==> appended[l] == old(appended[l]) && calls(TimeNow) == old(calls(TimeNow)) && calls(StringFromContext) == old(calls(StringFromContext)) && calls(FieldsFromContext) == old(calls(FieldsFromContext))
 //@   ensures[C11:caller] on && enableCaller && deep(up($frame, 1)) ==> lastFile[l] == frame_file(up($frame, 1)) && lastLine[l] == frame_line(up($frame, 1))
@@ -231,7 +231,7 @@ package log
 //@   requires tag != nil
 //@   let l = loggerOf(tag)
 //@   let on = enable(Logger.GetLevel(l), ErrorLevel)
-//@   modifies appended[l], lastLevel[l], lastTag[l], lastFields[l], lastFile[l], lastLine[l], lastTime[l], lastCtxString[l], lastCtxFields[l], all(Event), calls(TimeNow), calls(StringFromContext), calls(FieldsFromContext)
+//@   modifies appended[l], lastLevel[l], lastTag[l], lastFields[l], lastFile[l], lastLine[l], lastTime[l], lastCtxString[l], lastCtxFields[l], all(Event), calls(TimeNow), calls(StringFromContext), calls(FieldsFromContext), lastNow
 //@   ensures[C01:own-level] on ==> appended[l] == old(appended[l]) + 1 && lastLevel[l] == ErrorLevel && lastTag[l] == tag.tag && lastFields[l] == fields
 //@   ensures[C01,C10:disabled] !on ==> appended[l] == old(appended[l]) && calls(TimeNow) == old(calls(TimeNow)) && calls(StringFromContext) == old(calls(StringFromContext)) && calls(FieldsFromContext) == old(calls(FieldsFromContext))
 //@   ensures[C11:caller] on && enableCaller && deep(up($frame, 1)) ==> lastFile[l] == frame_file(up($frame, 1)) && lastLine[l] == frame_line(up($frame, 1))
@@ -249,7 +249,7 @@ package log
 //@   requires tag != nil
 //@   let l = loggerOf(tag)
 //@   let on = enable(Logger.GetLevel(l), PanicLevel)
-//@   modifies appended[l], lastLevel[l], lastTag[l], lastFields[l], lastFile[l], lastLine[l], lastTime[l], lastCtxString[l], lastCtxFields[l], all(Event), calls(TimeNow), calls(StringFromContext), calls(FieldsFromContext)
+//@   modifies appended[l], lastLevel[l], lastTag[l], lastFields[l], lastFile[l], lastLine[l], lastTime[l], lastCtxString[l], lastCtxFields[l], all(Event), calls(TimeNow), calls(StringFromContext), calls(FieldsFromContext), lastNow
 //@   ensures[C01:own-level] on ==> appended[l] == old(appended[l]) + 1 && lastLevel[l] == PanicLevel && lastTag[l] == tag.tag && lastFields[l] == fields
 //@   ensures[C01,C10:disabled] !on ==> appended[l] == old(appended[l]) && calls(TimeNow) == old(calls(TimeNow)) && calls(StringFromContext) == old(calls(StringFromContext)) && calls(FieldsFromContext) == old(calls(FieldsFromContext))
 //@   ensures[C11:caller] on && enableCaller && deep(up($frame, 1)) ==> lastFile[l] == frame_file(up($frame, 1)) && lastLine[l] == frame_line(up($frame, 1))
@@ -267,7 +267,7 @@ package log
 //@   requires tag != nil
 //@   let l = loggerOf(tag)
 //@   let on = enable(Logger.GetLevel(l), FatalLevel)
-//@   modifies appended[l], lastLevel[l], lastTag[l], lastFields[l], lastFile[l], lastLine[l], lastTime[l], lastCtxString[l], lastCtxFields[l], all(Event), calls(TimeNow), calls(StringFromContext), calls(FieldsFromContext)
+//@   modifies appended[l], lastLevel[l], lastTag[l], lastFields[l], lastFile[l], lastLine[l], lastTime[l], lastCtxString[l], lastCtxFields[l], all(Event), calls(TimeNow), calls(StringFromContext), calls(FieldsFromContext), lastNow
 //@   ensures[C01:own-level] on ==> appended[l] == old(appended[l]) + 1 && lastLevel[l] == FatalLevel && lastTag[l] == tag.tag && lastFields[l] == fields
 //@   ensures[C01,C10:disabled] !on ==> appended[l] == old(appended[l]) && calls(TimeNow) == old(calls(TimeNow)) && calls(StringFromContext) == old(calls(StringFromContext)) && calls(FieldsFromContext) == old(calls(FieldsFromContext))
 //@   ensures[C11:caller] on && enableCaller && deep(up($frame, 1)) ==> lastFile[l] == frame_file(up($frame, 1)) && lastLine[l] == frame_line(up($frame, 1))
@@ -286,7 +286,7 @@ package log
 //@   requires 0 <= skip && skip <= 1000000
 //@   let l = loggerOf(tag)
 //@   let on = enable(Logger.GetLevel(l), level)
-//@   modifies appended[l], lastLevel[l], lastTag[l], lastFields[l], lastFile[l], lastLine[l], lastTime[l], lastCtxString[l], lastCtxFields[l], all(Event), calls(TimeNow), calls(StringFromContext), calls(FieldsFromContext)
+//@   modifies appended[l], lastLevel[l], lastTag[l], lastFields[l], lastFile[l], lastLine[l], lastTime[l], lastCtxString[l], lastCtxFields[l], all(Event), calls(TimeNow), calls(StringFromContext), calls(FieldsFromContext), lastNow
 //@   ensures[C01:own-level] on ==> appended[l] == old(appended[l]) + 1 && lastLevel[l] == level && lastTag[l] == tag.tag && lastFields[l] == fields
 //@   ensures[C01,C10:disabled] !on ==> appended[l] == old(appended[l]) && calls(TimeNow) == old(calls(TimeNow)) && calls(StringFromContext) == old(calls(StringFromContext)) && calls(FieldsFromContext) == old(calls(FieldsFromContext))
 //@   ensures[C11:caller] on && enableCaller && deep(up($frame, skip)) ==> lastFile[l] == frame_file(up($frame, skip)) && lastLine[l] == frame_line(up($frame, skip))
@@ -532,3 +532,28 @@ package log
 //@   loop 4 invariant[C16:handles-visited] forall n string :: $visited[n] ==> loggerMap[n].logger == nil
 //@   loop 4 invariant[C16:tags-done] forall t string :: has(tagRegistry, t) ==> tagRegistry[t].logger == nil
 //@   loop 4 invariant[C05:stopped-all] stops == stopA(as, len(as), stopL(ls, len(ls), old(stops)))
+
+// ---- C14: retention -----------------------------------------------------------------------------------
+
+// a rotated file of the appender: FileName + "." + fourteen digits (yyyyMMddHHmmss)
+//@ spec fun ownName(n string, f string) bool = has_prefix(n, f + ".") && len(n) == len(f) + 15 && (forall k int :: 0 <= k && k < 14 ==> '0' <= n[len(f)+1:][k] && n[len(f)+1:][k] <= '9')
+
+//@ spec fun expiredEntry(x fs.DirEntry, f string, cut smt:S_time_Time) bool = !fs.DirEntry.IsDir(x) && ownName(fs.DirEntry.Name(x), f) && de_info_ok(x) && time_before(fs.FileInfo.ModTime(de_info(x)), cut)
+
+//@ spec rec fun rmAll(es smt:(Array Int Iface), k int, dir string, f string, cut smt:S_time_Time, base Trace) Trace = k <= 0 ? base : (expiredEntry(es[k-1], f, cut) ? tsnoc(rmAll(es, k-1, dir, f, cut, base), 6, 0, 0, 0, dir + "/" + fs.DirEntry.Name(es[k-1])) : rmAll(es, k-1, dir, f, cut, base))
+
+//@ func (*RollingFileAppender).clearExpiredFiles
+//@   requires c != nil && 0 <= c.MaxAge && c.MaxAge <= 2562047
+//@   modifies rm, lastNow, dirEntries, dirCount
+//@   ensures[C14:exactly-own-expired] rm == rmAll(dirEntries, dirCount, c.FileDir, c.FileName, time_add(lastNow, 0 - c.MaxAge * 3600000000000), old(rm))
+//@   loop 1 invariant[C14:range] 0 <= $k && $k <= dirCount && dirCount == len(entries)
+//@   loop 1 invariant[C14:listing] forall j int :: 0 <= j && j < len(entries) ==> entries[j] == dirEntries[j] && entries[j] != nil
+//@   loop 1 invariant[C14:prefix] rm == rmAll(dirEntries, $k, c.FileDir, c.FileName, time_add(lastNow, 0 - c.MaxAge * 3600000000000), old(rm))
+
+//@ func (*RollingFileAppender).isRotatedFile
+//@   requires c != nil
+//@   modifies nothing
+//@   ensures[C14:own-name] result == ownName(name, c.FileName)
+//@   loop 1 invariant[C14:range] 0 <= i && i <= len(suffix)
+//@   loop 1 invariant[C14:digits] forall k int :: 0 <= k && k < i ==> '0' <= suffix[k] && suffix[k] <= '9'
+//@   replay name = name; fileName = c.FileName
